@@ -168,14 +168,19 @@ func ToGNMITypedValue(v *sdcpb.TypedValue) *gnmi.TypedValue {
 		return &gnmi.TypedValue{
 			Value: &gnmi.TypedValue_BytesVal{BytesVal: v.GetBytesVal()},
 		}
-	// case *sdcpb.TypedValue_DecimalVal:
-	// 	return &gnmi.TypedValue{
-	// 		Value: &gnmi.TypedValue_DecimalVal{DecimalVal: v.GetDecimalVal()},
-	// 	}
-	// case *sdcpb.TypedValue_FloatVal:
-	// 	return &gnmi.TypedValue{
-	// 		Value: &gnmi.TypedValue_FloatVal{FloatVal: v.GetFloatVal()},
-	// 	}
+	case *sdcpb.TypedValue_DecimalVal:
+		return &gnmi.TypedValue{
+			//lint:ignore SA1019 the deprecated DecimalVal is the only lossless representation of a decimal64
+			Value: &gnmi.TypedValue_DecimalVal{DecimalVal: &gnmi.Decimal64{Digits: v.GetDecimalVal().GetDigits(), Precision: v.GetDecimalVal().GetPrecision()}},
+		}
+	case *sdcpb.TypedValue_FloatVal:
+		return &gnmi.TypedValue{
+			Value: &gnmi.TypedValue_DoubleVal{DoubleVal: float64(v.GetFloatVal())},
+		}
+	case *sdcpb.TypedValue_DoubleVal:
+		return &gnmi.TypedValue{
+			Value: &gnmi.TypedValue_DoubleVal{DoubleVal: v.GetDoubleVal()},
+		}
 	case *sdcpb.TypedValue_IntVal:
 		return &gnmi.TypedValue{
 			Value: &gnmi.TypedValue_IntVal{IntVal: v.GetIntVal()},
@@ -312,10 +317,23 @@ func EqualTypedValues(v1, v2 *sdcpb.TypedValue) bool {
 			if v1 == nil || v2 == nil {
 				return false
 			}
-			if v1.DecimalVal.GetDigits() != v2.DecimalVal.GetDigits() {
+			// 1.50 and 1.5 are the same number, compare the normalised values
+			d1, p1 := normalizeDecimal64(v1.DecimalVal)
+			d2, p2 := normalizeDecimal64(v2.DecimalVal)
+			return d1 == d2 && p1 == p2
+		default:
+			return false
+		}
+	case *sdcpb.TypedValue_DoubleVal:
+		switch v2 := v2.GetValue().(type) {
+		case *sdcpb.TypedValue_DoubleVal:
+			if v1 == nil && v2 == nil {
+				return true
+			}
+			if v1 == nil || v2 == nil {
 				return false
 			}
-			return v1.DecimalVal.GetPrecision() == v2.DecimalVal.GetPrecision()
+			return v1.DoubleVal == v2.DoubleVal
 		default:
 			return false
 		}
@@ -395,6 +413,7 @@ func EqualTypedValues(v1, v2 *sdcpb.TypedValue) bool {
 					return false
 				}
 			}
+			return true
 		default:
 			return false
 		}
@@ -438,8 +457,18 @@ func EqualTypedValues(v1, v2 *sdcpb.TypedValue) bool {
 			return false
 		}
 	}
-	// TODO: Why is this default case to return true??
-	return true
+	// v1 carries no (known) value, it only equals a v2 that carries none either.
+	return v1.GetValue() == nil && v2.GetValue() == nil
+}
+
+// normalizeDecimal64 strips the trailing zeros of the fraction, such that equal numbers have equal digits and precision.
+func normalizeDecimal64(d *sdcpb.Decimal64) (int64, uint32) {
+	digits, precision := d.GetDigits(), d.GetPrecision()
+	for precision > 0 && digits%10 == 0 {
+		digits /= 10
+		precision--
+	}
+	return digits, precision
 }
 
 func TypedValueToString(tv *sdcpb.TypedValue) string {
@@ -481,7 +510,7 @@ func TypedValueToString(tv *sdcpb.TypedValue) string {
 	case *sdcpb.TypedValue_FloatVal:
 		return strconv.FormatFloat(float64(tv.GetFloatVal()), byte('e'), -1, 64)
 	case *sdcpb.TypedValue_IntVal:
-		return strconv.Itoa(int(tv.GetIntVal()))
+		return strconv.FormatInt(tv.GetIntVal(), 10)
 	case *sdcpb.TypedValue_JsonIetfVal:
 		return string(tv.GetJsonIetfVal())
 	case *sdcpb.TypedValue_JsonVal:
@@ -497,7 +526,7 @@ func TypedValueToString(tv *sdcpb.TypedValue) string {
 	case *sdcpb.TypedValue_StringVal:
 		return tv.GetStringVal()
 	case *sdcpb.TypedValue_UintVal:
-		return strconv.Itoa(int(tv.GetUintVal()))
+		return strconv.FormatUint(tv.GetUintVal(), 10)
 	case *sdcpb.TypedValue_IdentityrefVal:
 		return tv.GetIdentityrefVal().Value
 	}
